@@ -232,8 +232,25 @@ pub fn damage(rd: &Rendered, op: usize, r: &mut Rng) -> Option<(String, String)>
         1 => {
             let c: Vec<&Mark> = rd.marks.iter().filter(|m| matches!(m.kind, MarkKind::FlowColl { .. })).collect();
             let m = pick(r, &c)?;
-            let MarkKind::FlowColl { close, seq, .. } = m.kind else { unreachable!() };
+            let MarkKind::FlowColl { open, close, seq, .. } = m.kind else { unreachable!() };
             let mut s = t.clone();
+            if r.chance(1, 4) {
+                // an extra closer of the other kind right before the real one (`[a, b}]`); for a
+                // sequence sometimes behind an entry with two ':' (`[a, : : x}]`), where a scanner
+                // that opens an implicit mapping per ':' finds something for the stray '}' to close
+                let inner = t[open + 1..close].trim_end();
+                let sep = if inner.is_empty() || inner.ends_with(',') { "" } else { ", " };
+                let extra = if seq {
+                    if r.chance(1, 2) { format!("{sep}: : x}}") } else { "}".to_string() }
+                } else {
+                    "]".to_string()
+                };
+                // (not inside a trailing comment of a multi-line collection)
+                if !t[open + 1..close].rsplit('\n').next().unwrap_or("").contains('#') {
+                    s.insert_str(close, &extra);
+                    return Some((s, format!("`{extra}` inserted before the closing bracket at byte {close}: a closer that matches nothing")));
+                }
+            }
             s.replace_range(close..close + 1, if seq { "}" } else { "]" });
             Some((s, format!("closing bracket at byte {close} swapped")))
         }
